@@ -16,7 +16,6 @@ package main
 
 import (
 	"bytes"
-	"encoding/hex"
 	"encoding/json"
 	"fmt"
 	"math/big"
@@ -33,13 +32,6 @@ import (
 	"github.com/zenon-network/go-zenon/common"
 	"github.com/zenon-network/go-zenon/common/types"
 )
-
-func hx(b []byte) string {
-	if len(b) == 0 {
-		return "-"
-	}
-	return hex.EncodeToString(b)
-}
 
 // ---- generators -------------------------------------------------------------------------------------
 
@@ -393,7 +385,7 @@ func momentumPreimage(m *nom.Momentum) []byte {
 
 // ---- round trips -------------------------------------------------------------------------------------
 
-func guard(f func() string) (res string) {
+func cdGuard(f func() string) (res string) {
 	defer func() {
 		if r := recover(); r != nil {
 			res = "panic"
@@ -435,7 +427,7 @@ func abRoundTrips(c *Ctx, b *nom.AccountBlock) {
 		}
 		c.Hit("ab-rt-" + codec)
 	}
-	if r := guard(func() string {
+	if r := cdGuard(func() string {
 		data, err := b.Serialize()
 		if err != nil {
 			check("protobuf", nil, err)
@@ -447,7 +439,7 @@ func abRoundTrips(c *Ctx, b *nom.AccountBlock) {
 	}); r == "panic" {
 		c.Fail("account block protobuf round trip panics :: %s", short(want))
 	}
-	if r := guard(func() string {
+	if r := cdGuard(func() string {
 		data, err := json.Marshal(b)
 		if err != nil {
 			check("json", nil, err)
@@ -460,7 +452,7 @@ func abRoundTrips(c *Ctx, b *nom.AccountBlock) {
 	}); r == "panic" {
 		c.Fail("account block json round trip panics :: %s", short(want))
 	}
-	if r := guard(func() string {
+	if r := cdGuard(func() string {
 		data, err := rlp.EncodeToBytes(b)
 		if err != nil {
 			check("rlp", nil, err)
@@ -489,7 +481,7 @@ func momentumRoundTrips(c *Ctx, m *nom.Momentum, blocks []*nom.AccountBlock) {
 		}
 		c.Hit("mom-rt-" + codec)
 	}
-	if r := guard(func() string {
+	if r := cdGuard(func() string {
 		data, err := m.Serialize()
 		if err != nil {
 			check("protobuf", nil, err)
@@ -501,7 +493,7 @@ func momentumRoundTrips(c *Ctx, m *nom.Momentum, blocks []*nom.AccountBlock) {
 	}); r == "panic" {
 		c.Fail("momentum protobuf round trip panics :: %s", short(want))
 	}
-	if r := guard(func() string {
+	if r := cdGuard(func() string {
 		data, err := json.Marshal(m)
 		if err != nil {
 			check("json", nil, err)
@@ -515,7 +507,7 @@ func momentumRoundTrips(c *Ctx, m *nom.Momentum, blocks []*nom.AccountBlock) {
 		c.Fail("momentum json round trip panics :: %s", short(want))
 	}
 	// RLP is the p2p form: DetailedMomentum = momentum + its account blocks (protocol/peer.go SendBlocks / SendNewMomentum)
-	if r := guard(func() string {
+	if r := cdGuard(func() string {
 		dm := &nom.DetailedMomentum{Momentum: m, AccountBlocks: blocks}
 		data, err := rlp.EncodeToBytes(dm)
 		if err != nil {
@@ -789,18 +781,18 @@ func codecBlockCase(c *Ctx, b *nom.AccountBlock) {
 	pre := abPreimage(b)
 	c.Emit("ab-pre %s %s %s | %s", hx(types.NewHash(b.Data).Bytes()), hx(types.NewHash(descSource(b)).Bytes()), blockStr(b), hx(pre))
 	// monitor: the hash is SHA3 of exactly the statement's pre-image
-	if got := guard(func() string { return b.ComputeHash().String() }); got != types.NewHash(pre).String() {
+	if got := cdGuard(func() string { return b.ComputeHash().String() }); got != types.NewHash(pre).String() {
 		c.Fail("account block ComputeHash()=%s is not the hash %s of the pre-image layout of the statement :: %s",
 			got, types.NewHash(pre), short(blockStr(b)))
 	}
-	c.Emit("ab-pb %s | %s", blockStr(b), guard(func() string {
+	c.Emit("ab-pb %s | %s", blockStr(b), cdGuard(func() string {
 		data, err := b.Serialize()
 		if err != nil {
 			return "err"
 		}
 		return hx(data)
 	}))
-	c.Emit("ab-rlp %s | %s", blockStr(b), guard(func() string {
+	c.Emit("ab-rlp %s | %s", blockStr(b), cdGuard(func() string {
 		data, err := rlp.EncodeToBytes(b)
 		if err != nil {
 			return "err"
@@ -852,11 +844,11 @@ func codecMomentumCase(c *Ctx, m *nom.Momentum, blocks []*nom.AccountBlock) {
 	}()
 	pre := momentumPreimage(m)
 	c.Emit("mom-pre %s %s %s | %s", hx(types.NewHash(m.Data).Bytes()), hx(types.NewHash(contentSource(m)).Bytes()), momentumStr(m), hx(pre))
-	if got := guard(func() string { return m.ComputeHash().String() }); got != types.NewHash(pre).String() {
+	if got := cdGuard(func() string { return m.ComputeHash().String() }); got != types.NewHash(pre).String() {
 		c.Fail("momentum ComputeHash()=%s is not the hash %s of the pre-image layout of the statement :: %s",
 			got, types.NewHash(pre), short(momentumStr(m)))
 	}
-	c.Emit("mom-pb %s | %s", momentumStr(m), guard(func() string {
+	c.Emit("mom-pb %s | %s", momentumStr(m), cdGuard(func() string {
 		data, err := m.Serialize()
 		if err != nil {
 			return "err"
@@ -871,7 +863,7 @@ func codecMomentumCase(c *Ctx, m *nom.Momentum, blocks []*nom.AccountBlock) {
 			sb.WriteByte(' ')
 			blockTokens(&sb, b)
 		}
-		c.Emit("dm-rlp %s | %s", sb.String(), guard(func() string {
+		c.Emit("dm-rlp %s | %s", sb.String(), cdGuard(func() string {
 			data, err := rlp.EncodeToBytes(&nom.DetailedMomentum{Momentum: m, AccountBlocks: blocks})
 			if err != nil {
 				return "err"
@@ -1005,7 +997,7 @@ func wireVariant(c *Ctx, data []byte) ([]byte, string) {
 }
 
 func codecDecodeBlock(c *Ctx, data []byte, kind string) {
-	res := guard(func() string {
+	res := cdGuard(func() string {
 		b, err := nom.DeserializeAccountBlock(data)
 		if err != nil {
 			return "err"
@@ -1017,7 +1009,7 @@ func codecDecodeBlock(c *Ctx, data []byte, kind string) {
 }
 
 func codecDecodeMomentum(c *Ctx, data []byte, kind string) {
-	res := guard(func() string {
+	res := cdGuard(func() string {
 		m, err := nom.DeserializeMomentum(data)
 		if err != nil {
 			return "err"
@@ -1054,7 +1046,7 @@ func rlpTree(data []byte, depth int) (string, []byte, error) {
 }
 
 func codecRlpTree(c *Ctx, data []byte, kind string) {
-	res := guard(func() string {
+	res := cdGuard(func() string {
 		s, rest, err := rlpTree(data, 0)
 		if err != nil || len(rest) != 0 {
 			return "err"
